@@ -145,6 +145,8 @@ def run(ck, ix, tier):
     ck.check("eq(obj, 0, False) + isnan(obj, False)" in src and "return out.all()" in src, "G-PROV", "compat.zero_or_nan|zero-or-nan-all", fz.loc(), "(== 0) | isnan, reduced with all()", "compat.zero_or_nan is no longer (obj == 0) + isnan(obj) reduced with all()")
     from .. import memo as _memo
     _memo.rule_quantity_dimensionality_memo(ck, ix)  # __eq__/compare read Quantity.dimensionality
+    from .C16 import inplace_primitives_rule
+    inplace_primitives_rule(ck, ix)  # only in-place forms may rescale/rebind their target
     return EXPLANATION
 
 
